@@ -1,15 +1,20 @@
 """C29 - proposal spending stays within approved budgets.
 
  1. TLC checks the invariants of spec/Gov/Proposal.tla (total paid <= approved stages, a stage paid at most once and only
-    after it became withdrawable, owed <= CRCCommitteeUsedAmount <= CRCCurrentStageAmount) on the committee model of
-    CR.tla, whose blocks are admitted as the node admits them: CheckDuplicateTx on the block, every transaction against
-    the state before the block.
+    after it became withdrawable, the pending withdraw orders covered by stages marked withdrawn, owed <=
+    CRCCommitteeUsedAmount <= CRCCurrentStageAmount) on the committee model of CR.tla, whose blocks are admitted as the node
+    admits them: CheckDuplicateTx on the block, every transaction against the state before the block.  Both withdraw
+    payload versions are modelled (version 0 spends the expenses address itself, version 1 orders a payment that
+    CRCProposalRealWithdraw makes); rollback steps disconnect blocks of withdrawals / trackings / real withdrawals and
+    other transactions follow (a re-issued withdrawal has another hash).
  2. harness/cmd/crstate replays the behaviours on a real crstate.Committee: the real SpecialContextCheck of
-    CRCProposal / review / tracking / withdraw / real withdraw / appropriation and blockchain.CheckDuplicateTx must
-    admit exactly what the spec admits; after every step probe transactions around the limits (withdrawals of the
-    available amount +-1, two withdrawals / two trackings of one proposal in one block, proposals at the 10% cap and
-    at the remaining room +-1, with budgets asked earlier in the block) are put to the real checkers and compared with
-    the spec's verdict table; the budget invariants are evaluated on the real state.
+    CRCProposal / review / tracking / withdraw (+ its HeightVersionCheck) / real withdraw / appropriation and
+    blockchain.CheckDuplicateTx must admit exactly what the spec admits; after every step probe transactions around the
+    limits (withdrawals of the available amount +-1 and with the payload version the height refuses, two withdrawals /
+    two trackings of one proposal in one block, proposals at the 10% cap and at the remaining room +-1, with budgets asked
+    earlier in the block) are put to the real checkers and compared with the spec's verdict table; the budget
+    invariants -- the payable set WithdrawableTxInfo included -- are evaluated on the real state, also right after a
+    rollback whose result differs from the directly built state.
 """
 import json, os, importlib.util
 import vf
@@ -19,16 +24,19 @@ G = importlib.util.module_from_spec(_spec); _spec.loader.exec_module(G)
 
 META = dict(
     text="TLC checks the budget invariants of the proposal model (paid <= approved stages, each stage paid once and only "
-         "after it became withdrawable, owed <= used <= stage amount) over all explored blocks of proposal transactions; "
-         "the behaviours are replayed on a real crstate.Committee where the real CRCProposal / tracking / withdraw "
-         "checkers and CheckDuplicateTx must give the spec's verdicts (also for probe transactions around every limit and "
-         "for two withdrawals / trackings of one proposal in one block) and the invariants are evaluated on the real state.",
-    note="Unit-level Committee and checkers (SpecialContextCheck only; sanity, signatures of non-proposal transactions and "
-         "UTXO validation are not exercised); payload version 1 withdrawals (orders executed by CRCProposalRealWithdraw); "
-         "bounded: 2 proposals x 3 stages, amounts 1/2/5 units, stage amount 80 units; the 'room' limit can bind only "
-         "through budgets asked earlier in the block at these bounds.",
-    technique="TLA+ model of proposal budgets and committee funds (TLC invariants) + replay on the real Committee with "
-              "checker-verdict comparison, limit probes and real-state invariants",
+         "after it became withdrawable, pending withdraw orders covered by withdrawn stages, owed <= used <= stage amount) "
+         "over all explored blocks of proposal transactions and rollbacks, for both withdraw payload versions; the "
+         "behaviours are replayed on a real crstate.Committee where the real CRCProposal / tracking / withdraw / "
+         "appropriation checkers and CheckDuplicateTx must give the spec's verdicts (also for probe transactions around "
+         "every limit and for two withdrawals / trackings of one proposal in one block) and the invariants, the payable "
+         "set included, are evaluated on the real state after every step and after every rollback.",
+    note="Unit-level Committee and checkers (SpecialContextCheck, HeightVersionCheck of the withdrawal only; sanity, "
+         "signatures of non-proposal transactions and UTXO validation are not exercised); bounded: 2 proposals x 3 stages, "
+         "amounts 1/2/5 units, stage amount 80 units; the 'room' limit can bind only through budgets asked earlier in the "
+         "block at these bounds; CRCProposal / review / tracking payload version 01 only.",
+    technique="TLA+ model of proposal budgets and committee funds (TLC invariants, rollback steps, two withdraw payload "
+              "versions) + replay on the real Committee with checker-verdict comparison, limit probes and real-state "
+              "invariants",
 )
 
 TABLE_CFG = """SPECIFICATION Spec
@@ -71,10 +79,25 @@ def budget_table(chk, s, cfgp):
 BUDGET_KINDS = ["Proposal", "Review", "Reject", "Tracking", "Withdraw", "RealWithdraw", "Close", "Approp"]
 
 
+def rollback_jobs(s, limit, small, steps=2):
+    """The budgets across a reorganisation: a block of tracking / withdrawal / real withdrawal is disconnected and other
+    transactions (a re-issued withdrawal has another hash) follow; both withdraw payload versions; the funds at the
+    committee change."""
+    s.job("agreed: withdrawal and tracking undone and re-issued", "agreed", ["Tracking", "Withdraw", "RealWithdraw"], 3, emit="all",
+          limit=limit, rolls=1)
+    s.job("legacy agreed: both withdraw payload versions, undone and re-issued", "agreed", ["Tracking", "Withdraw", "RealWithdraw"], 3,
+          emit="all", limit=limit, rolls=1, variant="legacy")
+    s.job("h2 handover: proposals decided at the committee change", "handover", ["Review", "Reject", "Impeach"], steps, emit="all",
+          limit=small, rolls=1, variant="h2")
+    s.job("seated: appropriation, registration, review", "seated", ["Approp", "Proposal", "Review"], 3, emit="all", limit=small,
+          rolls=1)
+
+
 def run(chk):
     thorough = chk.tier == "thorough"
     s = G.Session(chk)
     if thorough:
+        rollback_jobs(s, 3000, 1500, steps=3)
         s.job("exhaustive agreed: tracking/withdraw/close/review/reject, 4 blocks", "agreed",
               ["Tracking", "Withdraw", "RealWithdraw", "Close", "Review", "Reject"], 4, workers=2, rolls=0, timeout=1700)
         s.job("exhaustive duty: registration to withdrawal, 4 blocks", "duty", ["Proposal", "Review", "Withdraw", "Tracking"], 4,
@@ -91,6 +114,7 @@ def run(chk):
               emit="all", limit=400, rolls=0)
         s.job("duty: registration and reviews", "duty", ["Proposal", "Review", "Reject", "Approp"], 3, emit="all", limit=300, rolls=0)
         s.job("simulation duty, 12 steps", "duty", BUDGET_KINDS, 12, emit="last", simulate="num=40", rolls=0)
+        rollback_jobs(s, 350, 250)
     s.run_jobs(parallel=4 if not thorough else 8)
     cap = 500 if thorough else 40
     for i, (label, behs) in enumerate(s.behs):
@@ -121,5 +145,9 @@ def run(chk):
         raise vf.Infra("no behaviour ends in a state where proposals are allowed")
     pb[-1]["vd"]["cap"] -= 1
     chk.selftest("proposal verdicts: 10% cap corrupted", G.rejected(s.driver_once(cfgp, [pb], sweep=0)))
+    ob = G.pick(allb, lambda b: len(b) > 2, s.rng)
+    recs = s.driver_once(cfgp, [ob], sweep=0, env={"CRSTATE_SELFTEST": "payable"})
+    chk.selftest("payable set: a withdraw order nobody issued",
+                 any(r.get("kind") == "violation" and r.get("key") == "C29:payable-unknown-order" for r in recs))
     chk.assumptions += G.ASSUMPTIONS
     return chk.finish(exhaustive=False)
